@@ -40,6 +40,15 @@ LbEqualsFindLb == pc \in {"ub", "lbdone"} => lb = FindLb(DX, DY)     \* the acti
 UbIsRealMap == pc = "sampled" => (smp[3] = (IF smp[1] = "XY" THEN Dis(DX, DY, smp[2]) ELSE Dis(DY, DX, smp[2])))
 \* every single sample is an upper bound of its direction's minimum distortion; the returned ub is a max of mins of samples
 UbSound == pc = "sampled" => (smp[3] >= (IF smp[1] = "XY" THEN MinDis(DX, DY) ELSE MinDis(DY, DX)))
+\* Theorems A/B do not depend on WHICH d-bounded curvature the pruning finds (its sort key is a heuristic, and in the code it is computed in a
+\* narrow integer type that can wrap for large graphs): confirmation with ANY d-bounded principal submatrix of size >= 3 is sound
+BoundedSub(D, sel, dd) == \A i, j \in sel : i # j => D[i][j] >= dd
+AnyCurvatureSound == pc \in {"ub", "lbdone"} =>
+    LET md == Max2(Diam(DX), Diam(DY)) IN
+    /\ \A dd \in 1..md : \A sel \in {q \in SUBSET (1..N(DX)) : Cardinality(q) > 2} :
+          (BoundedSub(DX, sel, dd) /\ Confirm(dd, SubMatrix(DX, sel), DY, md)) => dd <= T2
+    /\ \A dd \in 1..md : \A sel \in {q \in SUBSET (1..N(DY)) : Cardinality(q) > 2} :
+          (BoundedSub(DY, sel, dd) /\ Confirm(dd, SubMatrix(DY, sel), DX, md)) => dd <= T2
 \* closed form used by the trace validator at sizes where the generic oracle is too slow
 PointLemma == (N(DY) = 1 => T2 = Diam(DX)) /\ (N(DX) = 1 => T2 = Diam(DY))
 IsoZero == (pc \in {"ub", "lbdone"} /\ N(DX) = N(DY) /\ \E p \in Perms(N(DX)) : IsIsomorphism(DX, DY, p)) => lb = 0
